@@ -32,9 +32,14 @@ def _alarm(signum, frame):
 
 
 def guarded(fn, seconds=3.0):
-    """Run fn() under an interval timer; returns (value, exc). Timeout is reported as exc."""
+    """Run fn() under a watchdog; returns (value, exc). Timeout is reported as exc.
+    The limit is `seconds` of CPU time of this process (a call that does not come back burns CPU: the library never
+    blocks) plus a generous wall-clock limit against anything that does block: on a loaded machine a process may not
+    be scheduled for seconds, which must never look like a hang of the code under test."""
     old = signal.signal(signal.SIGALRM, _alarm)
-    signal.setitimer(signal.ITIMER_REAL, seconds)
+    oldv = signal.signal(signal.SIGVTALRM, _alarm)
+    signal.setitimer(signal.ITIMER_REAL, max(30.0, seconds * 10))
+    signal.setitimer(signal.ITIMER_VIRTUAL, seconds)
     try:
         return fn(), None
     except Timeout as ex:
@@ -43,7 +48,9 @@ def guarded(fn, seconds=3.0):
         ex.__traceback__ = None     # frames would keep handlers alive
         return None, ex
     finally:
+        signal.setitimer(signal.ITIMER_VIRTUAL, 0)
         signal.setitimer(signal.ITIMER_REAL, 0)
+        signal.signal(signal.SIGVTALRM, oldv)
         signal.signal(signal.SIGALRM, old)
 
 
